@@ -463,6 +463,50 @@ func extractC15() *lean {
 			return true
 		})
 	}
+	// grpc/tls_offloading.go intercept: the assignments to peerInfo.AuthInfo and how deep they are nested (0 = a top-level
+	// statement of the function: unconditional), the certificate list put into the TLS info
+	var authAssign []string
+	for _, d := range offF.Decls {
+		fd, ok := d.(*ast.FuncDecl)
+		if !ok || fd.Name.Name != "intercept" {
+			continue
+		}
+		var walk func(stmts []ast.Stmt, depth int, guard string)
+		walk = func(stmts []ast.Stmt, depth int, guard string) {
+			for _, st := range stmts {
+				switch x := st.(type) {
+				case *ast.AssignStmt:
+					if len(x.Lhs) == 1 && c15Src(x.Lhs[0]) == "peerInfo.AuthInfo" {
+						certs := "?"
+						ast.Inspect(x.Rhs[0], func(n ast.Node) bool {
+							if kv, ok := n.(*ast.KeyValueExpr); ok && c15Src(kv.Key) == "PeerCertificates" {
+								certs = c15Src(kv.Value)
+							}
+							return true
+						})
+						authAssign = append(authAssign, fmt.Sprintf("depth=%d guard=%s PeerCertificates=%s", depth, guard, certs))
+					}
+				case *ast.IfStmt:
+					walk(x.Body.List, depth+1, c15Src(x.Cond))
+					if eb, ok := x.Else.(*ast.BlockStmt); ok {
+						walk(eb.List, depth+1, "else:"+c15Src(x.Cond))
+					}
+				case *ast.BlockStmt:
+					walk(x.List, depth+1, guard)
+				case *ast.ForStmt:
+					walk(x.Body.List, depth+1, "for")
+				case *ast.SwitchStmt:
+					walk(x.Body.List, depth+1, "switch")
+				case *ast.TypeSwitchStmt:
+					walk(x.Body.List, depth+1, "typeswitch")
+				case *ast.CaseClause:
+					walk(x.Body, depth+1, "case")
+				}
+			}
+		}
+		walk(fd.Body.List, 0, "-")
+	}
+	l.def("offloadAuthInfoAssignments", "List String", leanStrList(authAssign), authAssign)
 	l.def("offloadHeaderCountCheck", "String", fmt.Sprintf("%q", hdrCheck), hdrCheck)
 	l.def("offloadCertificateCountCheck", "String", fmt.Sprintf("%q", certCheck), certCheck)
 	l.def("offloadValueIndex", "List String", leanStrList(valIdx), valIdx)
